@@ -188,3 +188,18 @@ Theorem C09_centres_scale_with_unit :
   forall ora r e, centers (Rops ora) (map (Rmult r) e) = map (Rmult r) (centers (Rops ora) e).
 Proof. exact centers_units. Qed.
 Print Assumptions C09_centres_scale_with_unit.
+
+(* the same with the user overrides of standard_bins: max_dist given as r m in the unit, bin_no as is *)
+Theorem C09_std_bins_overrides_scale_with_unit :
+  forall ora r, (0 < r)%R -> forall ll bin_no max_dist,
+    std_bins_kw (Rops ora) true r ll bin_no (match max_dist with Some m => Some (r * m)%R | None => None end)
+    = map (Rmult r) (std_bins_kw (Rops ora) true 1%R ll bin_no max_dist).
+Proof. exact std_bins_kw_units. Qed.
+Print Assumptions C09_std_bins_overrides_scale_with_unit.
+
+Theorem C09_std_bins_overrides_unit_free :
+  forall ora r, (0 < r)%R -> forall ll bin_no max_dist,
+    pre_edges (Rops ora) true r (std_bins_kw (Rops ora) true r ll bin_no (match max_dist with Some m => Some (r * m)%R | None => None end))
+    = pre_edges (Rops ora) true 1%R (std_bins_kw (Rops ora) true 1%R ll bin_no max_dist).
+Proof. exact bins_kw_unit_free. Qed.
+Print Assumptions C09_std_bins_overrides_unit_free.
